@@ -11,4 +11,9 @@ CONSTANTS
   ExtLayouts = {"plain", "trail"}
   BoundMax = 2
   BoundLayouts = {"plain", "trail"}
+  MultiMax = 2
+  UseMultiLayouts = {"wrap-last", "wrap-earlier", "wrap-all", "fromnl-last", "fromnl-earlier", "fromnl-all", "tailnl-last", "tailnl-earlier", "tailnl-all"}
+  StdMax = 1
+  UseStdClasses = {"Pair", "Triple", "Option", "List"}
+  StdLayouts = {"plain", "trail", "wrap-last"}
 INVARIANTS ReadsBack NewlineFixGood GlueFixGoodIffSeparated GlueOkNeedsSemicolon ApplySane Emit
